@@ -1,1 +1,137 @@
-import SwcVerif.Gen.Consts
+import SwcVerif.Proofs.SwcText
+/-! # C02 — SWC reading keeps every data row, in order, or fails loudly
+
+Theorems about the model `SwcText.readLines` of `parse_swc` (recogniser + loop; tied to the code by the
+`c02.recogniser` correspondence against the real `parse_swc`, by the regex strings pinned in
+`consts_pinned`, and by the `FileReader.__exit__` flag extracted from the source on every run). -/
+namespace C02
+open SwcText
+
+/-- the row a line contributes, if it is a data line -/
+def dataOf (nx : Nat) (l : Str) : Option Row :=
+  match classify nx l with
+  | .data r _ => some r
+  | _ => none
+/-- the comment a line contributes (the writer's column header is dropped) -/
+def commentOf (nx : Nat) (l : Str) : Option Str :=
+  match classify nx l with
+  | .comment c => if keepComment c then some c else none
+  | _ => none
+def tailOf (nx : Nat) (l : Str) : Bool :=
+  match classify nx l with
+  | .data _ t => t
+  | _ => false
+
+/-- the source says `FileReader.__exit__` returns `False`: exceptions raised while reading propagate.
+(Regenerated from `utils/file.py` on every run; `return True` there breaks this theorem.) -/
+theorem exit_flag_pinned : Gen.Consts.fileReaderExitSwallows = false := rfl
+
+/-- the regular expressions, the dispatch chain and the error action the recogniser was written for -/
+theorem consts_pinned :
+    Gen.Consts.reFloat = "([+-]?(?:\\d+(?:[.]\\d*)?(?:[eE][+-]?\\d+)?|[.]\\d+(?:[eE][+-]?\\d+)?))" ∧
+    Gen.Consts.reComment = "^\\s*#" ∧
+    Gen.Consts.reCols = ["([0-9]+)", "([0-9]+)", "RE_FLOAT", "RE_FLOAT", "RE_FLOAT", "RE_FLOAT", "(-?[0-9]+)"] ∧
+    Gen.Consts.reExtraCols = "[RE_FLOAT for _ in extras]" ∧
+    Gen.Consts.reColsJoin = "'\\\\s+'.join(re_swc_cols)" ∧
+    Gen.Consts.reSwcTemplate = "re.compile(f'^\\\\s*{re_swc_cols_str}\\\\s*([\\\\s+-.0-9]*)$')" ∧
+    Gen.Consts.readTransforms = "[int, int, float, float, float, float, int] + [float for _ in extras]" ∧
+    Gen.Consts.lineDispatch = ["(match := re_swc.search(line)) is not None", "(match := RE_COMMENT.match(line))", "not line.isspace()"] ∧
+    Gen.Consts.invalidAction = "raise ValueError(f'invalid row {i + 1} in `{fname}`')" ∧
+    Gen.Consts.commentExpr = "line[len(match.group(0)):].removesuffix('\\n')" ∧
+    Gen.Consts.ignoredTest = "not comment.lstrip().startswith(ignored_comment)" ∧
+    Gen.Consts.ignoredCommentExpr = "' '.join(names.cols())" := by
+  sorry
+
+/-- **Reading succeeds exactly when no line is invalid, and then returns exactly one row per data line,
+in file order, the comments in order, and the "fields ignored" flag.** -/
+theorem read_ok_iff (nx : Nat) (ls : List Str) (res : ReadResult) :
+    readLines nx ls = .ok res ↔
+      (∀ l ∈ ls, classify nx l ≠ .invalid) ∧ res.rows = ls.filterMap (dataOf nx) ∧
+      res.comments = ls.filterMap (commentOf nx) ∧ res.warned = ls.any (tailOf nx) := by
+  sorry
+
+/-- one node per data row -/
+theorem read_row_count (nx : Nat) (ls : List Str) (res : ReadResult) (h : readLines nx ls = .ok res) :
+    res.rows.length = (ls.filter (fun l => (dataOf nx l).isSome)).length := by
+  sorry
+
+/-- **Never a shortened or partially filled table**: an invalid line at ANY position makes the whole
+read an error, which names the first such line (1-based). -/
+theorem read_never_partial (nx : Nat) (pre : List Str) (bad : Str) (post : List Str)
+    (hpre : ∀ l ∈ pre, classify nx l ≠ .invalid) (hbad : classify nx bad = .invalid) :
+    readLines nx (pre ++ bad :: post) = .error (.invalidRow (pre.length + 1)) := by
+  sorry
+
+/-- what would happen if `__exit__` returned `True` (the D03 defect): the rows before the bad line come
+back as a "successful" shortened table — the model exhibits the defect, so the flag matters. -/
+theorem swallow_truncates (nx : Nat) (pre : List Str) (bad : Str) (post : List Str)
+    (hpre : ∀ l ∈ pre, classify nx l ≠ .invalid) (hbad : classify nx bad = .invalid) :
+    ∃ res, readLinesWith true nx (pre ++ bad :: post) = .ok res ∧ res.rows = pre.filterMap (dataOf nx) := by
+  sorry
+
+/-- blank lines and `#` lines contribute no row -/
+theorem blank_and_comment_skipped (nx : Nat) (l : Str) (h : classify nx l = .blank ∨ ∃ c, classify nx l = .comment c) :
+    dataOf nx l = none := by
+  sorry
+
+/-! ## every field is numerically what the row says, for every whitespace layout -/
+
+/-- a string of whitespace characters -/
+def AllWs (w : Str) : Prop := ∀ c ∈ w, isWs c = true
+/-- a non-empty string of whitespace characters -/
+def Sep (w : Str) : Prop := w ≠ [] ∧ AllWs w
+
+/-- **Layout independence.**  If the seven whitespace-delimited tokens of a line are each accepted in full
+by their field's recogniser, the line is a data row carrying exactly those seven values — whatever
+the leading blanks, the separators (blanks / tabs, any number) and the trailing blanks / line end. -/
+theorem data_line_fields (lead w1 w2 w3 w4 w5 w6 trail t1 t2 t3 t4 t5 t6 t7 : Str)
+    (a b : Nat) (x y z r : Sci) (p : Int)
+    (hl : AllWs lead) (ht : AllWs trail)
+    (h1 : Sep w1) (h2 : Sep w2) (h3 : Sep w3) (h4 : Sep w4) (h5 : Sep w5) (h6 : Sep w6)
+    (e1 : intTok t1 = some (a, [])) (e2 : intTok t2 = some (b, []))
+    (e3 : floatPrefix t3 = some (x, [])) (e4 : floatPrefix t4 = some (y, []))
+    (e5 : floatPrefix t5 = some (z, [])) (e6 : floatPrefix t6 = some (r, []))
+    (e7 : pidTok t7 = some (p, [])) :
+    classify 0 (lead ++ t1 ++ w1 ++ t2 ++ w2 ++ t3 ++ w3 ++ t4 ++ w4 ++ t5 ++ w5 ++ t6 ++ w6 ++ t7 ++ trail)
+      = .data ⟨a, b, x, y, z, r, p, []⟩ false := by
+  sorry
+
+/-- positional notation: the value of a digit string with more digits appended -/
+theorem natOf_append (a b : Str) : natOf (a ++ b) = natOf a * 10 ^ b.length + natOf b := by
+  sorry
+
+/-- the value the recogniser assigns to a float token is its decimal meaning: for the spelling
+`[sign] ip [. fp] [e [sign] ex]` (digit strings `ip ≠ ""`, `fp`, `ex ≠ ""`) it is
+`± (ip.fp) × 10^(±ex)`, kept exactly as `mant = natOf (ip ++ fp)`, `exp = ±ex − |fp|`. -/
+theorem float_token_value (sg : Str) (neg : Bool) (ip fp ex : Str) (esg : Str) (eneg : Bool)
+    (hsg : (sg = [] ∧ neg = false) ∨ (sg = ['+'] ∧ neg = false) ∨ (sg = ['-'] ∧ neg = true))
+    (hesg : (esg = [] ∧ eneg = false) ∨ (esg = ['+'] ∧ eneg = false) ∨ (esg = ['-'] ∧ eneg = true))
+    (hip : ip ≠ [] ∧ ∀ c ∈ ip, isDig c = true) (hfp : ∀ c ∈ fp, isDig c = true)
+    (hex : ex ≠ [] ∧ ∀ c ∈ ex, isDig c = true) :
+    floatPrefix (sg ++ ip ++ '.' :: fp ++ 'e' :: esg ++ ex)
+      = some (⟨neg, natOf (ip ++ fp), (if eneg then -(natOf ex : Int) else (natOf ex : Int)) - fp.length⟩, []) ∧
+    floatPrefix (sg ++ ip ++ '.' :: fp) = some (⟨neg, natOf (ip ++ fp), -(fp.length : Int)⟩, []) ∧
+    floatPrefix (sg ++ ip) = some (⟨neg, natOf ip, 0⟩, []) ∧
+    floatPrefix (sg ++ ip ++ 'E' :: esg ++ ex)
+      = some (⟨neg, natOf ip, (if eneg then -(natOf ex : Int) else (natOf ex : Int))⟩, []) := by
+  sorry
+
+/-- a token that is not a number is not accepted: a data line needs all seven fields -/
+theorem too_few_fields_invalid (t1 t2 : Str) (a b : Nat) (e1 : intTok t1 = some (a, [])) (e2 : intTok t2 = some (b, [])) :
+    classify 0 (t1 ++ ' ' :: t2 ++ ['\n']) = .invalid := by
+  sorry
+
+-- non-vacuity / concrete behaviour of the model (these run in the kernel)
+example : classify 0 " 1 2 3. .5 1e3 -2.5E-1 -1\n".toList
+    = .data ⟨1, 2, ⟨false, 3, 0⟩, ⟨false, 5, -1⟩, ⟨false, 1, 3⟩, ⟨true, 25, -2⟩, -1, []⟩ false := by decide +kernel
+example : classify 0 "1 1 0 0 0 1 -1 7,8\n".toList = .data ⟨1, 1, ⟨false, 0, 0⟩, ⟨false, 0, 0⟩, ⟨false, 0, 0⟩, ⟨false, 1, 0⟩, -1, []⟩ true := by
+  decide +kernel
+example : classify 0 "foo bar\n".toList = .invalid := by decide +kernel
+example : classify 0 "1 1 0 0 0 1\n".toList = .invalid := by decide +kernel
+example : classify 0 "  # note\n".toList = .comment " note".toList := by decide +kernel
+example : classify 0 " \t\n".toList = .blank := by decide +kernel
+example : (match readLines 0 ["1 1 0 0 0 1 -1\n".toList, "foo bar\n".toList, "2 1 0 0 0 1 1\n".toList] with
+    | .error (.invalidRow 2) => true | _ => false) = true := by
+  decide +kernel
+
+end C02
